@@ -74,11 +74,14 @@ def ofOptInts : Option (List Int) → Sexp
   | some xs => ofInts xs
 
 /-- Canonical description of a state (what the harness also extracts from the glue object). -/
-def stateSexp : State → Sexp
+def stateSexp (exact : Bool) : State → Sexp
   | .range lo hi att => .list [.atom "Range", ofOri att, ofRat lo, ofRat hi]
   | .catRoi cats att => .list [.atom "CatRoi", ofOri att, ofInts cats]
-  | .and a b => .list [.atom "And", stateSexp a, stateSexp b]
-  | .cat2d sel => .list [.atom "Cat2D", .list (sel.map fun kv => .list [ofInt kv.1, ofInts kv.2])]
+  | .and a b => .list [.atom "And", stateSexp exact a, stateSexp exact b]
+  | .cat2d sel =>
+    -- the selection table is compared only on exact paths (ε = 0); otherwise band points may differ
+    if exact then .list [.atom "Cat2D", .list (sel.map fun kv => .list [ofInt kv.1, ofInts kv.2])]
+    else .list [.atom "Cat2D"]
   | .catMulti _ c n => .list [.atom "CatMulti", ofOri c, ofOri n]
   | .roi r => .list [.atom "Roi", .atom (roiKind r)]
 
@@ -105,7 +108,7 @@ def step (line : String) : String :=
       let es := (xs.zip ys).map fun p => (⟨p.1, p.2⟩ : Elem)
       let st := roiToState r xc yc usePre
       let model := es.map (mask pre st)
-      let nears := es.map (specNear ε r xc yc usePre pre)
+      let nears := es.map (specNear ε r xc yc pre)
       -- python output: (xcats ycats state mask)
       let (pyMask, pyOk) : Option (List Bool) × Bool := match pyout with
         | .list [_, _, _, m] => (m.toBools?, true)
@@ -116,11 +119,11 @@ def step (line : String) : String :=
             (model.zip (pm.zip nears)).map fun t => if t.2.2 then t.2.1 else t.1
           else model
         | none => model
-      let impl := Sexp.list [ofOptInts xc, ofOptInts yc, stateSexp st, ofBools implMask]
+      let impl := Sexp.list [ofOptInts xc, ofOptInts yc, stateSexp (ε == 0) st, ofBools implMask]
       let ok := pyOk && match pyMask with
-        | some pm => specMask ε r xc yc usePre pre es pm
+        | some pm => specMask ε r xc yc pre es pm
         | none => false
-      let implok := specMask ε r xc yc usePre pre es model
+      let implok := specMask ε r xc yc pre es model
       driverResult impl ok implok true (stateBranch r st)
     | _, _, _, _, _, _ => bad "sel-args"
   | some (.list [.atom "mpl", .list [vsE, ptsE], pyout]) =>
